@@ -837,6 +837,28 @@ theorem apply_heap_square (t : T) (r : NNI) (hpos : pposOK t = true) (h : r ∈ 
       rw [hp'eq]
       exact ⟨q, hq, hsameq, hsu⟩
 
+/-- The same square for EVERY position of the root around the piece — nowhere (n1 is the root),
+    or behind any of the four outer nodes, including `c`/`d` (the tree was re-rooted after
+    `newNNI`, or between `Apply` and `Undo`: commit 48c858a) —, on the pointer records and their
+    abstraction: the Go statements of `Apply` (`applyP`) lead from the well-formed piece before
+    to the well-formed piece after, pairing, symmetric adjacency and every node's number of parent
+    branches (≤ 1) are kept, the abstraction commutes (`applyH`), and `Undo` (`undoP`, `undoH`) leads back. -/
+theorem heap_square_any_root (dat : HData) (i1 i2 : Nat) (h1 : i1 ≤ 2) (h2 : i2 ≤ 2) (cross : Bool) (up : Option Ref)
+    (hup : up = none ∨ up = some .a ∨ up = some .b ∨ up = some .c ∨ up = some .d) (pre post : Ref → List Nat) :
+    let p := mkP (slices1 i1 cross false) (slices2 i2 cross false) up pre post
+    let q := mkP (slices1 i1 cross true) (slices2 i2 cross true) up pre post
+    pairing p = true ∧ symmetric p = true ∧ pairing q = true ∧ symmetric q = true ∧
+    (∀ x, incoming q x = incoming p x ∧ incoming p x ≤ 1) ∧
+    (∃ p', applyP p cross = some p' ∧ p' = q) ∧ (∃ p'', undoP q cross = some p'' ∧ p'' = p) ∧
+    applyH (absH dat p) cross = some (absH dat q) ∧ undoH (absH dat q) cross = some (absH dat p) := by
+  obtain ⟨a1, a2⟩ := mkP_invariants i1 i2 h1 h2 cross false up hup pre post
+  obtain ⟨b1, b2⟩ := mkP_invariants i1 i2 h1 h2 cross true up hup pre post
+  obtain ⟨p', hp', hs'⟩ := applyP_mk i1 i2 h1 h2 cross up hup pre post
+  obtain ⟨p'', hp'', hs''⟩ := undoP_mk i1 i2 h1 h2 cross up hup pre post
+  exact ⟨a1, a2, b1, b2, fun x => mkP_incoming i1 i2 h1 h2 cross up hup pre post x,
+    ⟨p', hp', same_eq hs'⟩, ⟨p'', hp'', same_eq hs''⟩,
+    applyP_absH dat i1 i2 h1 h2 cross up hup pre post, undoP_absH dat i1 i2 h1 h2 cross up hup pre post⟩
+
 /-- calling `Apply` on an applied NNI changes nothing -/
 theorem obj_apply_applied (o : Obj) (t : T) (h : o.applied = true) : o.apply t = some (t, o) := by
   simp [Obj.apply, h]
